@@ -52,7 +52,7 @@ class Run:
         v = self.violations.get(vid)
         if v is None:
             v = dict(rule=self.cur_rule, function=func, key=key, loc=loc, message=msg, path=path or [], configs=[],
-                     property=prop or self.prop)
+                     property=self.prop, owner_property=prop or self.prop)
             self.violations[vid] = v
         if self.cur_cfg not in v['configs']: v['configs'].append(self.cur_cfg)
 
@@ -74,7 +74,7 @@ def load_known():
 def match_known(v, known):
     for k in known:
         if k.get('status') != 'known': continue        # 'fixed' entries suppress nothing
-        if k['property'] == v['property'] and k['rule'] == v['rule'] and k['function'] == v['function'] and k['key'] == v['key']:
+        if k['rule'] == v['rule'] and k['function'] == v['function'] and k['key'] == v['key']:
             return k
     return None
 
